@@ -136,7 +136,7 @@ func (s *refWriteSummary) sumArgs(c ssa.CallInstruction) []int {
 func init() {
 	register(&Rule{
 		ID: "C13-b", Template: "T1 must-traverse (join + error-channel)",
-		Doc: "In a function that launches worker goroutines and writes a table object, objects.SaveTable happens only after (*sync.WaitGroup).Wait and after the error channel was found empty (the ok==false edge of `err, ok := <-errChan`): no table is written while a worker is still running or after one failed.",
+		Doc: "Where worker goroutines write the blocks of a table, the table object is written only after they were joined and none failed: in the packages that launch block workers (a go statement in a function that also waits on a sync.WaitGroup), every objects.SaveTable call — in the launching function itself, or in a helper it calls afterwards — is reachable only after (*sync.WaitGroup).Wait and through the 'channel empty' (ok==false) edge of `err, ok := <-errChan`; when launching/joining and saving are split into helpers, the joining helper must return nil only on that edge and the saving helper must be called only after it succeeded.",
 		Min: 1,
 		Run: func(p *Program, r *RuleResult) error {
 			st, err := p.MustFuncs("pkg/objects.SaveTable")
@@ -145,26 +145,20 @@ func init() {
 			}
 			fns := p.ProdFuncs()
 			r.Analysed = len(fns)
-			for _, fn := range fns {
-				sinks := callsTo(fn, st)
-				if len(sinks) == 0 {
-					continue
-				}
-				hasGo := false
-				for _, b := range fn.Blocks {
-					for _, in := range b.Instrs {
-						if _, ok := in.(*ssa.Go); ok {
-							hasGo = true
-						}
-					}
-				}
-				if !hasGo {
-					continue
-				}
-				var waits []ssa.CallInstruction
+			isWait := func(c ssa.CallInstruction) bool {
+				f := calleeFunc(c)
+				return f != nil && f.FullName() == "(*sync.WaitGroup).Wait"
+			}
+			// joinInfo: Wait calls and channel-empty edges of fn
+			type joinInfo struct {
+				waits []ssa.CallInstruction
+				empty cutSet
+			}
+			info := func(fn *ssa.Function) joinInfo {
+				var ji joinInfo
 				eachCall(fn, func(c ssa.CallInstruction) {
-					if f := calleeFunc(c); f != nil && f.FullName() == "(*sync.WaitGroup).Wait" {
-						waits = append(waits, c)
+					if isWait(c) {
+						ji.waits = append(ji.waits, c)
 					}
 				})
 				var okVals []ssa.Value
@@ -185,36 +179,134 @@ func init() {
 						}
 					}
 				}
-				for _, s := range sinks {
-					what := "table written only after the workers were joined and the error channel was empty"
-					key := callKey(fn, s)
-					if len(waits) == 0 {
-						r.bad(key, p.Rel(s.Pos()), what, "no (*sync.WaitGroup).Wait in "+funcName(fn))
-						continue
+				ji.empty = mkCut(boolEdges(fn, forward(okVals, fwdOpts{noBinOp: true}), false))
+				return ji
+			}
+			// guarded: instruction `to` in fn is reachable only after Wait and the channel-empty edge
+			guarded := func(fn *ssa.Function, to ssa.Instruction) (bool, string) {
+				ji := info(fn)
+				if len(ji.waits) == 0 {
+					return false, "no (*sync.WaitGroup).Wait in " + funcName(fn)
+				}
+				blk := map[ssa.Instruction]bool{}
+				for _, w := range ji.waits {
+					blk[w] = true
+				}
+				if path, reach := reachAfter(fn, nil, to, nil, blk); reach {
+					return false, fmtPath("reachable without passing WaitGroup.Wait", path)
+				}
+				if len(ji.empty) == 0 {
+					return false, "no `err, ok := <-errChan` test in " + funcName(fn)
+				}
+				for _, w := range ji.waits {
+					if path, reach := reachAfter(fn, w, to, ji.empty, nil); reach {
+						return false, fmtPath("reachable after Wait without taking the channel-empty edge", path)
 					}
-					blk := map[ssa.Instruction]bool{}
-					for _, w := range waits {
-						blk[w] = true
-					}
-					if path, reach := reachAfter(fn, nil, s, nil, blk); reach {
-						r.bad(key, p.Rel(s.Pos()), what, fmtPath("SaveTable reachable without passing WaitGroup.Wait", path))
-						continue
-					}
-					cut := mkCut(boolEdges(fn, forward(okVals, fwdOpts{noBinOp: true}), false))
-					if len(cut) == 0 {
-						r.bad(key, p.Rel(s.Pos()), what, "no `err, ok := <-errChan` test in "+funcName(fn))
-						continue
-					}
-					bad := false
-					for _, w := range waits {
-						if path, reach := reachAfter(fn, w, s, cut, nil); reach {
-							r.bad(key, p.Rel(s.Pos()), what, fmtPath("SaveTable reachable after Wait without taking the channel-empty edge", path))
-							bad = true
-							break
+				}
+				return true, ""
+			}
+			// joiners: functions that wait and return success only on the channel-empty edge
+			joiners := map[*types.Func]bool{}
+			launchPkgs := map[string]bool{}
+			for _, fn := range fns {
+				hasGo := false
+				for _, b := range fn.Blocks {
+					for _, in := range b.Instrs {
+						if _, ok := in.(*ssa.Go); ok {
+							hasGo = true
 						}
 					}
-					if !bad {
+				}
+				ji := info(fn)
+				if hasGo && len(ji.waits) > 0 {
+					launchPkgs[fnPkgPath(fn)] = true
+				}
+				if len(ji.waits) == 0 || errorResultIndex(fn.Signature) < 0 || fn.Object() == nil {
+					continue
+				}
+				all := true
+				any := false
+				ei := errorResultIndex(fn.Signature)
+				for _, ret := range returnsOf(fn) {
+					v := retVal(ret, ei)
+					if v != nil && (definitelyNonNilError(v) || nonNilByGuard(fn, ret, v)) {
+						continue
+					}
+					// a return of the received error itself on the ok==true edge is an error return
+					if v != nil && !isNilConst(v) {
+						if ex, ok := v.(*ssa.Extract); ok {
+							if u, ok := ex.Tuple.(*ssa.UnOp); ok && u.Op.String() == "<-" {
+								continue
+							}
+						}
+					}
+					any = true
+					if ok, _ := guarded(fn, ret); !ok {
+						all = false
+					}
+				}
+				if all && any {
+					if f, ok := fn.Object().(*types.Func); ok {
+						joiners[f] = true
+					}
+				}
+			}
+			joinSum := newSuccSummary(p, joiners)
+			var check func(fn *ssa.Function, sink ssa.Instruction, depth int) (bool, string)
+			check = func(fn *ssa.Function, sink ssa.Instruction, depth int) (bool, string) {
+				if ok, _ := guarded(fn, sink); ok {
+					return true, ""
+				}
+				// preceded by a successful joiner?
+				var okJoin bool
+				eachCall(fn, func(c ssa.CallInstruction) {
+					call, isCall := c.(*ssa.Call)
+					if !isCall || ssa.Instruction(call) == sink || !joinSum.matches(call, wrapperDepth) {
+						return
+					}
+					if orderedAfterSuccess(fn, call, sink, errorResultIndex(fn.Signature)) {
+						okJoin = true
+					}
+				})
+				if okJoin {
+					return true, ""
+				}
+				_, why := guarded(fn, sink)
+				if depth <= 0 {
+					return false, why
+				}
+				// the obligation moves to the callers in the same package
+				node := p.CG.Nodes[fn]
+				if node == nil {
+					return false, why
+				}
+				n := 0
+				for _, e := range node.In {
+					cf := e.Caller.Func
+					if e.Site == nil || !p.IsProd(cf) || fnPkgPath(cf) != fnPkgPath(fn) {
+						continue
+					}
+					n++
+					if ok, w := check(cf, e.Site, depth-1); !ok {
+						return false, "via caller " + funcName(cf) + ": " + w
+					}
+				}
+				if n == 0 {
+					return false, why + " (and no caller in the package establishes it)"
+				}
+				return true, ""
+			}
+			for _, fn := range fns {
+				if !launchPkgs[fnPkgPath(fn)] {
+					continue
+				}
+				for _, s := range callsTo(fn, st) {
+					what := "table written only after the workers were joined and the error channel was empty"
+					key := callKey(fn, s)
+					if ok, why := check(fn, s, wrapperDepth); ok {
 						r.ok(key, p.Rel(s.Pos()), what)
+					} else {
+						r.bad(key, p.Rel(s.Pos()), what, "SaveTable "+why)
 					}
 				}
 			}
